@@ -50,7 +50,33 @@ IOL = ("io_constant", "io_identity", "io_strided", "io_morton", "io_hilbert", "i
 BIN = ("read_io_header", "read_io_footer", "write_io_header", "write_io_footer", "read_binary", "magic")     # harness/cxx2bin.py
 
 
+# function-level sentences (harness/cxx2sent.py) and the properties whose model clauses were written from them
+PROP_SENT = {
+    "C02": ["at_clamp", "at_clamp_adjust", "at_backup", "at_shuffle", "at_shuffle_helper", "at_cast", "at_cast_helper", "at_dereference",
+            "at_constant", "at_identity", "at_affine", "at_array", "at_morton", "at_hilbert", "field_view_at"],
+    "C04": ["at_nearest_neighbour"],
+    "C10": ["at_clamp", "at_clamp_adjust"],
+    "C11": ["at_backup"],
+    "C05": ["conv_strided", "conv_morton", "conv_hilbert"],
+    "C19": ["nd_map"],
+}
+SENT = tuple(sorted({k for v in PROP_SENT.values() for k in v}))
+
+
+def sentence_obligations(ctx, prop, corr):
+    """adds the obligations `translated_<sentence>` of a property (recorded; a lost tie is no violation: the escalation pass of
+    vlib/framework.py looks harder when the file changed)"""
+    keys = PROP_SENT.get(prop)
+    if not keys:
+        return
+    tie = Tie(ctx, keys)
+    tie.merge(corr)
+
+
 def _translate(k):
+    if k in SENT:
+        from harness import cxx2sent
+        return cxx2sent.translate(str(C.REPO), k), {"scalars": [], "arrays": []}
     if k in ("context", "morton_pdep"):
         from harness import cxx2ctx
         return cxx2ctx.translate(str(C.REPO), k), {"scalars": [], "arrays": []}
@@ -73,6 +99,9 @@ def _translate(k):
 
 
 def _where(k):
+    if k in SENT:
+        from harness import cxx2sent
+        return cxx2sent.SENTENCES[k][0] + " " + k + " (model clause: " + cxx2sent.SENTENCES[k][3] + ")"
     if k == "context":
         return "array.hpp / algebra/matrix.hpp / algebra/vector.hpp / utility/nd_size.hpp element accessors"
     if k == "morton_pdep":
